@@ -39,6 +39,12 @@ var expectedFields = map[string][]string{
 	"DelayTrigger":        {"Delay"},
 	"CountingTrigger":     {"Count"},
 	"SQLVal":              {"Type", "Val"},
+	"RangeCond":           {"Operator", "Left", "From", "To"},
+	"CaseExpr":            {"Expr", "Whens", "Else"},
+	"When":                {"Cond", "Val"},
+	"ExistsExpr":          {"Subquery"},
+	"With":                {"CommonTableExpressions", "Select"},
+	"CommonTableExpression": {"Name", "Select"},
 }
 
 func checkStructShapes() error {
@@ -55,6 +61,9 @@ func checkStructShapes() error {
 		"ColName": reflect.TypeOf(sqlparser.ColName{}), "IsExpr": reflect.TypeOf(sqlparser.IsExpr{}), "Order": reflect.TypeOf(sqlparser.Order{}),
 		"Limit": reflect.TypeOf(sqlparser.Limit{}), "Where": reflect.TypeOf(sqlparser.Where{}), "DelayTrigger": reflect.TypeOf(sqlparser.DelayTrigger{}),
 		"CountingTrigger": reflect.TypeOf(sqlparser.CountingTrigger{}), "SQLVal": reflect.TypeOf(sqlparser.SQLVal{}),
+		"RangeCond": reflect.TypeOf(sqlparser.RangeCond{}), "CaseExpr": reflect.TypeOf(sqlparser.CaseExpr{}), "When": reflect.TypeOf(sqlparser.When{}),
+		"ExistsExpr": reflect.TypeOf(sqlparser.ExistsExpr{}), "With": reflect.TypeOf(sqlparser.With{}),
+		"CommonTableExpression": reflect.TypeOf(sqlparser.CommonTableExpression{}),
 	}
 	var bad []string
 	for name, t := range types {
@@ -80,9 +89,10 @@ type ser struct {
 	ok   bool
 	why  string
 	feat map[string]bool // extensions used (for the non-triviality rule and the distribution)
+	feat2 map[string]bool // other constructs added to the fragment in the deepening round (distribution only)
 }
 
-func newSer() *ser { return &ser{ok: true, feat: map[string]bool{}} }
+func newSer() *ser { return &ser{ok: true, feat: map[string]bool{}, feat2: map[string]bool{}} }
 
 func (s *ser) fail(why string) string {
 	if s.ok {
@@ -114,6 +124,8 @@ var cmpOps = map[string]string{
 	sqlparser.EqualStr: "OEq", sqlparser.LessThanStr: "OLt", sqlparser.GreaterThanStr: "OGt", sqlparser.LessEqualStr: "OLe",
 	sqlparser.GreaterEqualStr: "OGe", sqlparser.NotEqualStr: "ONe", sqlparser.NullSafeEqualStr: "ONse",
 	sqlparser.LikeStr: "OLike", sqlparser.NotLikeStr: "ONotLike", sqlparser.InStr: "OIn", sqlparser.NotInStr: "ONotIn",
+	sqlparser.RegexpStr: "ORegexp", sqlparser.NotRegexpStr: "ONotRegexp", sqlparser.LikeRegexpStr: "OLikeRe", sqlparser.LikeRegexpCaseInsensitiveStr: "OLikeReCI",
+	sqlparser.NotLikeRegexpStr: "ONotLikeRe", sqlparser.NotLikeRegexpCaseInsensitiveStr: "ONotLikeReCI",
 }
 var isOps = map[string]string{
 	sqlparser.IsNullStr: "IsNull", sqlparser.IsNotNullStr: "IsNotNull", sqlparser.IsTrueStr: "IsTrue",
@@ -146,7 +158,28 @@ func (s *ser) expr(e sqlparser.Expr) string {
 			return s.fail("is operator " + x.Operator)
 		}
 		return fmt.Sprintf("(EIs %s %s)", op, s.expr(x.Expr))
+	case *sqlparser.RangeCond:
+		neg, ok := map[string]string{sqlparser.BetweenStr: "false", sqlparser.NotBetweenStr: "true"}[x.Operator]
+		if !ok {
+			return s.fail("range operator " + x.Operator)
+		}
+		s.feat2["between"] = true
+		return fmt.Sprintf("(ERange %s %s %s %s)", neg, s.expr(x.Left), s.expr(x.From), s.expr(x.To))
+	case *sqlparser.CaseExpr:
+		s.feat2["case"] = true
+		var ws []string
+		for _, w := range x.Whens {
+			ws = append(ws, fmt.Sprintf("(%s, %s)", s.expr(w.Cond), s.expr(w.Val)))
+		}
+		return fmt.Sprintf("(ECase %s %s %s)", s.optExpr(x.Expr), coqList(ws), s.optExpr(x.Else))
+	case *sqlparser.ExistsExpr:
+		s.feat2["exists"] = true
+		return fmt.Sprintf("(EExists %s)", s.stmt(x.Subquery.Select))
 	case *sqlparser.BinaryExpr:
+		if x.Operator == sqlparser.ArrayElement {
+			s.feat2["index"] = true
+			return fmt.Sprintf("(EIndex %s %s)", s.expr(x.Left), s.expr(x.Right))
+		}
 		op, ok := binOps[x.Operator]
 		if !ok {
 			return s.fail("binary operator " + x.Operator)
@@ -206,11 +239,7 @@ func (s *ser) expr(e sqlparser.Expr) string {
 		}
 		return fmt.Sprintf("(ETuple %s)", coqList(es))
 	case *sqlparser.Subquery:
-		sel, ok := x.Select.(*sqlparser.Select)
-		if !ok {
-			return s.fail("subquery that is not a plain select")
-		}
-		return fmt.Sprintf("(ESubquery %s)", s.sel(sel))
+		return fmt.Sprintf("(ESubquery %s)", s.stmt(x.Select))
 	case *sqlparser.SQLVal:
 		switch x.Type {
 		case sqlparser.StrVal:
@@ -222,6 +251,18 @@ func (s *ser) expr(e sqlparser.Expr) string {
 			return fmt.Sprintf("(ELit (LInt false %s))", coqBytes(x.Val))
 		case sqlparser.FloatVal:
 			return fmt.Sprintf("(ELit (LFloat %s))", coqBytes(x.Val))
+		case sqlparser.HexVal:
+			s.feat2["lit_hex_bit_arg"] = true
+			return fmt.Sprintf("(ELit (LHex %s))", coqBytes(x.Val))
+		case sqlparser.BitVal:
+			s.feat2["lit_hex_bit_arg"] = true
+			return fmt.Sprintf("(ELit (LBit %s))", coqBytes(x.Val))
+		case sqlparser.HexNum:
+			s.feat2["lit_hex_bit_arg"] = true
+			return fmt.Sprintf("(ELit (LHexNum %s))", coqBytes(x.Val))
+		case sqlparser.ValArg:
+			s.feat2["lit_hex_bit_arg"] = true
+			return fmt.Sprintf("(ELit (LArg %s))", coqBytes(x.Val))
 		}
 		return s.fail("literal kind")
 	case *sqlparser.NullVal:
@@ -257,11 +298,7 @@ func (s *ser) table(t sqlparser.TableExpr) string {
 		case sqlparser.TableName:
 			return fmt.Sprintf("(TName %s %s %s)", s.id(ex.Qualifier.String()), s.id(ex.Name.String()), s.id(x.As.String()))
 		case *sqlparser.Subquery:
-			sel, ok := ex.Select.(*sqlparser.Select)
-			if !ok {
-				return s.failT("subquery that is not a plain select")
-			}
-			return fmt.Sprintf("(TSub %s %s)", s.sel(sel), s.id(x.As.String()))
+			return fmt.Sprintf("(TSub %s %s)", s.stmt(ex.Select), s.id(x.As.String()))
 		}
 		return s.failT("aliased table expression")
 	case *sqlparser.ParenTableExpr:
@@ -317,9 +354,34 @@ func (s *ser) failT(why string) string {
 	return "(TParen [])"
 }
 
+// select_statement: a plain SELECT or WITH … select_statement
+func (s *ser) stmt(x sqlparser.SelectStatement) string {
+	switch v := x.(type) {
+	case *sqlparser.Select:
+		return s.sel(v)
+	case *sqlparser.With:
+		s.feat2["with"] = true
+		var ctes []string
+		for _, c := range v.CommonTableExpressions {
+			ctes = append(ctes, fmt.Sprintf("Cte %s %s", s.id(c.Name.String()), s.stmt(c.Select)))
+		}
+		return fmt.Sprintf("(With %s %s)", coqList(ctes), s.stmt(v.Select))
+	}
+	s.fail(fmt.Sprintf("select statement %T", x))
+	return "(With [] (With [] (With [] (Select false [] [] None [] None [] [] None))))"
+}
+
 func (s *ser) sel(x *sqlparser.Select) string {
-	if x.Cache != "" || len(x.Comments) > 0 || x.Hints != "" || x.Having != nil || x.Lock != "" {
-		s.fail("cache / comments / hints / having / lock")
+	if x.Cache != "" || len(x.Comments) > 0 || x.Hints != "" || x.Lock != "" {
+		s.fail("cache / comments / hints / lock")
+	}
+	having := "None"
+	if x.Having != nil && x.Having.Expr != nil {
+		if x.Having.Type != sqlparser.HavingStr {
+			s.fail("having type")
+		}
+		s.feat2["having"] = true
+		having = "(Some " + s.expr(x.Having.Expr) + ")"
 	}
 	if x.Distinct != "" && x.Distinct != sqlparser.DistinctStr {
 		s.fail("distinct string")
@@ -388,5 +450,5 @@ func (s *ser) sel(x *sqlparser.Select) string {
 	if x.Limit != nil {
 		lim = fmt.Sprintf("(Some (Limit %s %s))", s.optExpr(x.Limit.Offset), s.expr(x.Limit.Rowcount))
 	}
-	return fmt.Sprintf("(Select %s %s %s %s %s %s %s %s)", coqBool(x.Distinct != ""), coqList(items), coqList(from), where, coqList(gb), coqList(trs), coqList(ob), lim)
+	return fmt.Sprintf("(Select %s %s %s %s %s %s %s %s %s)", coqBool(x.Distinct != ""), coqList(items), coqList(from), where, coqList(gb), having, coqList(trs), coqList(ob), lim)
 }
